@@ -129,14 +129,20 @@ std::string AnalyzerInformation::skipAnalysis(const tinyxml2::XMLDocument &analy
 std::string AnalyzerInformation::getAnalyzerInfoFileFromFilesTxt(std::istream& filesTxt, const std::string &sourcefile, const std::string &cfg, int fsFileId)
 {
     std::string line;
+    std::string suffixMatch;
     while (std::getline(filesTxt,line)) {
         AnalyzerInformation::Info filesTxtInfo;
         if (!filesTxtInfo.parse(line))
             continue; // TODO: report error?
-        if (endsWith(sourcefile, filesTxtInfo.sourceFile) && filesTxtInfo.cfg == cfg && filesTxtInfo.fsFileId == fsFileId)
+        if (filesTxtInfo.cfg != cfg || filesTxtInfo.fsFileId != fsFileId)
+            continue;
+        // an exact match takes precedence - otherwise files with the same name in different folders share a file
+        if (sourcefile == filesTxtInfo.sourceFile)
             return filesTxtInfo.afile;
+        if (suffixMatch.empty() && endsWith(sourcefile, filesTxtInfo.sourceFile))
+            suffixMatch = filesTxtInfo.afile;
     }
-    return "";
+    return suffixMatch;
 }
 
 std::string AnalyzerInformation::getAnalyzerInfoFile(const std::string &buildDir, const std::string &sourcefile, const std::string &cfg, std::size_t fsFileId)
